@@ -91,7 +91,8 @@ class Enumerator(object):
                 return str({'&': x & y, '|': x | y, '+': x + y, '-': x - y, '*': x * y}[op])
             return '(%s %s %s)' % (a, op, b)
         if k == 'sizeof':
-            return 'sizeof(%s)' % (e.x.get('argType') if e.x else '?')
+            t = (e.x.get('argType') if e.x else None) or (e.c[0].ty if e.c else None) or '?'
+            return 'sizeof(%s)' % t.replace('const ', '').strip()
         if k == 'str':
             return '"%s"' % e.v
         return pp.expr(e)
